@@ -5,6 +5,7 @@ import re
 from lib import common as C
 from lib import corr
 from lib import methgen
+from lib import propcorr
 from lib import retgen
 from lib.flow import Failure
 from props import c09, c14
@@ -12,8 +13,16 @@ from props import c09, c14
 MANIFEST = {
     "text": "Theorems C15_* (Coq): the reference rule of the property — a parameter's type is the union, by T.AppendVariant, of "
             "the argument types of all call sites — is proved to cover every call site and to hold nothing else (one variant "
-            "per distinct class, scalar argument types, through the model of AppendVariant). How ti reaches that union (four "
-            "rounds of replace-or-union in propagationForCalledTo, snapshots of argument types) is not modelled. The type of a "
+            "per distinct class, scalar argument types, through the model of AppendVariant). How ti reaches that union: propagationForCalledTo for a "
+            "parameter of a user-defined method is modelled as a state machine on the table entry (type, flags, Round tag): within "
+            "one round, from a parameter nothing is known about, the call sites leave exactly the distinct argument types "
+            "(C15_round_collects); from ANY inferred state of earlier rounds the parameter afterwards admits the argument of every "
+            "call site of the round — what a round replaces (first call site of a new round, the two-variant heuristic) it "
+            "replaces before recording anything of this round (C15_round_covers; C15_new_round_replaces shows the replacement). "
+            "The orchestration of the four rounds (which call sites a round reaches) is not modelled: the two kept findings live "
+            "there. Tie: checkAndPropagateArgs is driven through a hook with one user-defined parameter (absent, single or union "
+            "entry, inferred / default flags, any Round tag) and 1-4 call sites in one round; error, type and Round tag after "
+            "every call are compared with the model by vm_compute. The type of a "
             "call: on a model of the return collection (AppendLastReturnT, Return.Evaluation, Def.evaluationBody, the block of "
             "a lambda) the method's type holds exactly the value of the body's last statement and the `return` values written "
             "outside lambdas, at any depth of blocks (C15_returns_collected); generated bodies (expression statements, returns, "
@@ -25,18 +34,18 @@ MANIFEST = {
             "after it — are compared at every `dbtp` of a parameter inside the body and of every call: the reported variants "
             "must be exactly the union over all call sites (the type of an overridden default value may be present); a body "
             "operation that fails for every argument type must be reported and one that succeeds for all must not.",
-    "note": "Trusted: Coq kernel + vm_compute; lib/methgen.py (the union over the call sites it writes). This is the weakest tie "
-            "of the set: the theorem is about the reference rule, the implementation's round logic is covered by exploration.",
+    "note": "Trusted: Coq kernel + vm_compute; lib/methgen.py (the union over the call sites it writes). The per-call mechanism "
+            "is modelled and tied; the round orchestration is covered by exploration.",
     "technique": "Coq proof (the union over call sites covers each of them, via the AppendVariant model); correspondence by "
                  "vm_compute for the union operations; end-to-end comparison with the union over known call sites",
 }
-REQUIRES = ["Model/Infer.v", "Model/Returns.v"]
+REQUIRES = ["Model/Infer.v", "Model/Returns.v", "Model/Propagate.v"]
 RULE = ("return collection: bodies of 1-4 statements, nesting <= 2; programs of 1-4 methods, 1-2 positional parameters, 40% a default parameter, 40% a keyword parameter, 40% an explicit "
         "return; call sites at top level after the definition and inside early / late caller methods; variants compared as "
         "sets; non-trivial = a parameter meets at least two different types")
 TRUSTED = []
 ASSUMPTIONS = ["argument types are scalar (Integer, String, Float, Symbol)"]
-PARTIAL = ["the four-round propagation is explored, not modelled"]
+PARTIAL = ["the orchestration of the four rounds (which call sites a round reaches, when a definition is evaluated) is explored, not modelled"]
 
 
 def run(src):
@@ -164,13 +173,30 @@ def part_returns_tie(ctx, part):
         terms.append("(%s, %s)" % (retgen.coq_body(body), C.coq_list([C.coq_str(str(c)) for c in g])))
         kept.append(src)
         part.sample({"statements": len(body), "lambda": retgen.has(body, "lambda"), "block": retgen.has(body, "block")})
+    # several array results: one array type with the element types of all of them
+    def arr(i):
+        src, row, want = retgen.array_returns(C.rng_for(ctx.pid, ctx.seed, "arr%d" % i))
+        return src, row, want, run(src)
+    for src, row, want, (x, got) in C.pmap(arr, list(range(ctx.n(30, 300))), par=8):
+        part.evaluations += 1
+        part.count("array_returns")
+        if x.timeout:
+            continue
+        line = (got.get(row) or [None])[0]
+        m2 = re.match(r'^Array<(.*)>$', line or "")
+        # arrays merge position by position: the element types are compared as a set
+        if m2 and sorted(m2.group(1).split(" ")) == sorted(want[6:-1].split(" ")):
+            part.agreed += 1
+        else:
+            part.failures.append(Failure("call_type_wrong", "the call of a method whose results are arrays is reported as %s, the arrays hold %s" % (line, want),
+                                         {"program": src}))
     bad = corr.coq_mismatches(["Model.Returns"], "list rstmt * list string",
                               "fun c => list_eqb String.eqb (method_type true (fst c)) (snd c)", terms, chunk=300)
     for i in bad:
         part.mismatches.append({"fn": "Return.Evaluation / Do.Evaluation / Def.evaluationBody (return collection)", "program": kept[i]})
 
 
-PARTS = [c09.part_tyops_corr, c14.part_sorters, part_returns_tie, part_e2e, part_keyword_prefix_names, part_body_operations]
+PARTS = [c09.part_tyops_corr, c14.part_sorters, propcorr.part_propagate, part_returns_tie, part_e2e, part_keyword_prefix_names, part_body_operations]
 
 CALL_BEFORE_DEF = "dbtp um2(1.5, \"s\", k2: 1)\ndef um2(p20, p21, k2:)\n  if p20\n    return \"s\"\n  end\n  p21\nend\ndbtp um2(1, :a, k2: 1)\n"
 ROUND_WITNESS = "def early_caller\n  um1(1, 1.5, \"s\")\n  1\nend\ndef um1(p0, p1, p2)\n  dbtp p2\n  p0\nend\num1(:a, :a, 1)\nearly_caller()\n"
